@@ -115,7 +115,7 @@ func c06(c *core.Ctx) {
 						}
 					}
 				case *ssa.Field:
-					if st, ok := x.X.Type().Underlying().(*types.Struct); ok && st.Field(x.Field).Name() == "data" && core.NamedOf(x.X.Type()) == "frame" {
+					if st, ok := x.X.Type().Underlying().(*types.Struct); ok && core.FieldName(st, x.Field) == "data" && core.NamedOf(x.X.Type()) == "frame" {
 						loaded = x
 					}
 				}
@@ -822,9 +822,17 @@ func c06CopyWrites(c *core.Ctx, fn *ssa.Function) {
 		return
 	}
 	np := len(fn.Params)
-	outP, inP := fn.Params[np-2], fn.Params[np-1]
-	outs, ins := derivedFrom(outP, true), derivedFrom(inP, false)
 	key := core.FuncName(fn) + ":success-writes-out"
+	n, bad := copyWritesOK(fn, fn.Params[np-2], fn.Params[np-1], 0)
+	c.Check(bad == "", key, fn.Pos(), fmt.Sprintf("every possibly-nil return passes a write of out from in (%d writer call(s))", n), bad)
+}
+
+// copyWritesOK: in fn, with outP the destination and inP the source, every
+// possibly-nil return is preceded on all paths by a write of the destination
+// from the source. A call of a library helper that receives both is a write if
+// the helper, with the corresponding parameters, satisfies the same obligation.
+func copyWritesOK(fn *ssa.Function, outP, inP ssa.Value, depth int) (int, string) {
+	outs, ins := derivedFrom(outP, true), derivedFrom(inP, false)
 	bad := ""
 	writers := map[ssa.Instruction]bool{}
 	core.Instrs(fn, func(in ssa.Instruction) {
@@ -850,6 +858,22 @@ func c06CopyWrites(c *core.Ctx, fn *ssa.Function) {
 			dst, src = args[len(args)-2], args[len(args)-1]
 		case ci.Is("reflect.Value.Set") && len(args) == 2:
 			dst, src = args[0], args[1]
+		case ci.Static != nil && ci.Static.Blocks != nil && ci.Static != fn && depth < 3 && strings.HasPrefix(ci.Pkg, core.ModulePath):
+			// a helper of the library that is handed both the destination and the source
+			io, ii := -1, -1
+			for i, a := range args {
+				if outs[a] && io < 0 {
+					io = i
+				} else if ins[a] && ii < 0 {
+					ii = i
+				}
+			}
+			if io >= 0 && ii >= 0 && io < len(ci.Static.Params) && ii < len(ci.Static.Params) {
+				if _, b := copyWritesOK(ci.Static, ci.Static.Params[io], ci.Static.Params[ii], depth+1); b == "" {
+					writers[in] = true
+				}
+			}
+			return
 		default:
 			return
 		}
@@ -863,8 +887,12 @@ func c06CopyWrites(c *core.Ctx, fn *ssa.Function) {
 		}
 	})
 	isWriter := func(in ssa.Instruction) bool { return writers[in] }
+	idx := core.ErrResultIndex(fn.Signature)
+	if idx < 0 {
+		return 0, "the function has no error result"
+	}
 	for _, r := range core.Returns(fn) {
-		for _, l := range core.ErrLeaves(r.Results[0], r) {
+		for _, l := range core.ErrLeaves(r.Results[idx], r) {
 			if l.Class == core.ErrNonNil {
 				continue
 			}
@@ -873,7 +901,7 @@ func c06CopyWrites(c *core.Ctx, fn *ssa.Function) {
 			}
 		}
 	}
-	c.Check(bad == "", key, fn.Pos(), fmt.Sprintf("every possibly-nil return passes a write of out from in (%d writer call(s))", len(writers)), bad)
+	return len(writers), bad
 }
 
 func c06CloneFresh(c *core.Ctx, fn *ssa.Function) {
